@@ -4,11 +4,7 @@ from vx.unit import Unit, Sub, StripAttrs
 F = 'src/registry/cache_control.rs'
 
 
-def merge_unit(kf):
-    u = Unit('c20_merge', ['C20'], 'CacheControl::merge against the restrictiveness order')
-    u.kf = kf
-    u.extract_type(F, ['struct CacheControl'])
-    u.spec('''
+_MERGE_SPEC = '''
 // Restrictiveness order taken from the property: no-cache (-1) is the most restrictive,
 // 0 ("no hint") the least, any other max-age in numeric order in between.
 pub open spec fn rank(a: int) -> int { if a == -1 { -0x1_0000_0000 } else if a == 0 { 0x1_0000_0000 } else { a } }
@@ -25,7 +21,14 @@ pub proof fn lemma_merge_idempotent(a: CacheControl)
     ensures spec_merge(a, a) == a {}
 pub proof fn lemma_merge_identity(a: CacheControl)
     ensures spec_merge(a, CacheControl { public: true, max_age: 0 }) == a {}
-''')
+'''
+
+
+def merge_unit(kf):
+    u = Unit('c20_merge', ['C20'], 'CacheControl::merge against the restrictiveness order')
+    u.kf = kf
+    u.extract_type(F, ['struct CacheControl'])
+    u.spec(_MERGE_SPEC)
     u.extract_fn(F, ['impl CacheControl', 'fn merge'], wrap_impl='CacheControl',
                  ensures=[
                      'r == spec_merge(self, *other)',
@@ -42,3 +45,53 @@ pub proof fn lemma_merge_identity(a: CacheControl)
 
 UNITS = {'c20_merge': (['C20'], merge_unit)}
 SEARCH = {'c20_merge': ['c20_merge']}
+
+
+from specs.common import value_types, ast_types, registry_types  # noqa: E402
+from vx.unit import ReSub, ClosureDesugar  # noqa: E402
+
+VC = 'src/validation/visitors/cache_control.rs'
+
+VISITOR_SHIM = r'''
+// trusted shim: validation::visitor::VisitorContext -- only its type stack accessors (the stack discipline itself lives in the
+// unverified visit_* driver)
+pub struct VisitorContext { pub cur: Option<MetaType>, pub par: Option<MetaType> }
+impl VisitorContext {
+    pub fn current_type(&self) -> (r: Option<&MetaType>) ensures r == (match self.cur { Some(t) => Some(&t), None => None }) { self.cur.as_ref() }
+    pub fn parent_type(&self) -> (r: Option<&MetaType>) ensures r == (match self.par { Some(t) => Some(&t), None => None }) { self.par.as_ref() }
+}
+pub struct CacheControlCalculate<'a> { pub cache_control: &'a mut CacheControl }
+'''
+
+
+def visitor_unit(kf):
+    u = Unit('c20_visitor', ['C20'], 'CacheControlCalculate folds every visited object type and field policy with merge')
+    u.kf = kf
+    value_types(u)
+    ast_types(u)
+    registry_types(u)
+    u.spec(_MERGE_SPEC, 'merge spec')
+    u.extract_fn(F, ['impl CacheControl', 'fn merge'], wrap_impl='CacheControl', ensures=['r == spec_merge(self, *other)'], canary=False,
+                 label=F + '::impl CacheControl::fn merge (callee, proved in c20_merge)')
+    u.trusted(VISITOR_SHIM, 'VisitorContext shim')
+    abstract = u.carve('C20-abstract-types-ignored', '!(old(ctx).cur is Some && (old(ctx).cur->Some_0 is Interface || old(ctx).cur->Some_0 is Union))')
+    u.extract_fn(VC, ["impl Visitor<'_> for CacheControlCalculate<'_>", 'fn enter_selection_set'], wrap_impl="<'a> CacheControlCalculate<'a>",
+                 sig_rewrites=[ReSub(r"VisitorContext<'_>", 'VisitorContext')],
+                 rewrites=[Sub('if let Some(MetaType::Object { cache_control, .. }) = ctx.current_type() {', 'match ctx.current_type() { Some(MetaType::Object { cache_control, .. }) => {', rule='R-iflet'),
+                           Sub('*self.cache_control = self.cache_control.merge(cache_control); }', '*self.cache_control = self.cache_control.merge(cache_control); } _ => {} }', rule='R-iflet')],
+                 requires=abstract,
+                 ensures=['match old(ctx).cur { Some(MetaType::Object { cache_control, .. }) => *final(self).cache_control == spec_merge(*old(self).cache_control, cache_control), '
+                          'Some(MetaType::Interface { .. }) | Some(MetaType::Union { .. }) => false, '
+                          '_ => *final(self).cache_control == *old(self).cache_control }   // abstract current type: the policy of every possible object type must be merged (the code merges nothing): known finding'])
+    u.extract_fn(VC, ["impl Visitor<'_> for CacheControlCalculate<'_>", 'fn enter_field'], wrap_impl="<'a> CacheControlCalculate<'a>",
+                 sig_rewrites=[ReSub(r"VisitorContext<'_>", 'VisitorContext')],
+                 rewrites=[ClosureDesugar('and_then')],
+                 ensures=['match old(ctx).par { Some(MetaType::Object { fields, .. }) | Some(MetaType::Interface { fields, .. }) => '
+                          '(if fields.view().contains_key(field.node.name.node@) { *final(self).cache_control == spec_merge(*old(self).cache_control, fields.view()[field.node.name.node@].cache_control) } '
+                          'else { *final(self).cache_control == *old(self).cache_control }), _ => *final(self).cache_control == *old(self).cache_control }'])
+    u.search_case('cache_control.rs', 'c20_policy')
+    return u
+
+
+UNITS['c20_visitor'] = (['C20'], visitor_unit)
+SEARCH['c20_visitor'] = ['c20_policy']
